@@ -437,8 +437,12 @@ class WsgiApplication(HttpBase):
                                                 self.app.out_protocol.mime_type)
 
         self.event_manager.fire_event('wsgi_call', initial_ctx)
-        initial_ctx.in_string, in_string_charset = \
+        try:
+            initial_ctx.in_string, in_string_charset = \
                                         self.__reconstruct_wsgi_request(req_env)
+        except Fault as e:
+            initial_ctx.in_error = initial_ctx.out_error = e
+            return self.handle_error(initial_ctx, (), e, start_response)
 
         contexts = self.generate_contexts(initial_ctx, in_string_charset)
         p_ctx, others = contexts[0], contexts[1:]
@@ -576,16 +580,24 @@ class WsgiApplication(HttpBase):
         return self.__wsgi_input_to_iterable(http_env), charset
 
     def __wsgi_input_to_iterable(self, http_env):
-        istream = http_env.get('wsgi.input')
-
+        # the declared length is checked here, eagerly: the returned generator
+        # is never consumed by protocols that don't look at the request body.
         length = str(http_env.get('CONTENT_LENGTH', self.max_content_length))
         if len(length) == 0:
             length = 0
         else:
-            length = int(length)
+            try:
+                length = int(length)
+            except ValueError:
+                raise Fault('Client.BadRequest',
+                                       "Invalid Content-Length: %r" % (length,))
 
         if length > self.max_content_length:
             raise RequestTooLongError()
+
+        return self.__read_wsgi_input(http_env.get('wsgi.input'), length)
+
+    def __read_wsgi_input(self, istream, length):
         bytes_read = 0
 
         while bytes_read < length:
